@@ -6,6 +6,7 @@
 package c14
 
 import (
+	dragonboat "github.com/lni/dragonboat/v4"
 	"github.com/lni/dragonboat/v4/internal/rsm"
 	"github.com/lni/dragonboat/v4/internal/utils/dio"
 	"github.com/lni/dragonboat/v4/internal/vfs"
@@ -24,6 +25,8 @@ type (
 	SnapshotValidator = rsm.SnapshotValidator
 	// BlockWriter is the block writer of rwv.go.
 	BlockWriter = rsm.BlockWriter
+	// Snapshotter wraps the real snapshotter (Save / Load).
+	Snapshotter = dragonboat.VerifC14
 )
 
 var (
@@ -59,6 +62,8 @@ var (
 	NewCompressor = dio.NewCompressor
 	// NewDecompressor is dio.NewDecompressor.
 	NewDecompressor = dio.NewDecompressor
+	// NewSnapshotter is dragonboat.NewVerifC14.
+	NewSnapshotter = dragonboat.NewVerifC14
 	// NewCountedWriter is dio.NewCountedWriter.
 	NewCountedWriter = dio.NewCountedWriter
 )
